@@ -38,28 +38,50 @@ Proof.
   - vm_compute; reflexivity.
 Qed.
 
-(* ---- kind-service-names: a name used by instances of two kinds ---- *)
+(* ---- kind-service-names ---- *)
+(* a name used by instances of two kinds (a proxy named "web" and a service "web"); the proxy's node is
+   deregistered.  Before /repo 0bb54ea the (connect-proxy, web) row stayed; now the table agrees with
+   the recomputation (regression case, replayed by the harness corpus). *)
 Definition ksn_log : list (N * cmd) :=
   [ (3, Register "n2" "" 1 false (Some (proxy "s1" "web" "db" [])) []);
     (4, Register "n3" "" 1 false (Some (plain "s1" "web")) []);
     (5, Deregister "n2" "" "") ].
 
-Lemma kindnames_witness :
+Lemma kindnames_repaired_example :
   let s := (run ksn_log st0).1 in
-  ("connect-proxy", "web") ∈ ksn s /\ ksn s ≠ recompute_ksn s.
+  ("connect-proxy", "web") ∉ ksn s /\ ("", "web") ∈ ksn s /\ ksn s = recompute_ksn s.
 Proof.
-  cbv zeta. split.
+  cbv zeta. split; [|split].
   - eapply bool_decide_eq_true_1. vm_compute. reflexivity.
-  - eapply bool_decide_eq_false_1. vm_compute. reflexivity.
+  - eapply bool_decide_eq_true_1. vm_compute. reflexivity.
+  - eapply bool_decide_eq_true_1. vm_compute. reflexivity.
 Qed.
 
-(* ... and an instance re-registered under another name *)
+(* STILL FALSE (1): an instance re-registered under another name (or kind): the old pair stays,
+   because a re-registration never passes through deleteServiceTxn *)
 Definition ksn_log2 : list (N * cmd) :=
   [ (3, Register "n1" "" 1 false (Some (plain "s1" "db")) []);
     (4, Register "n1" "" 1 false (Some (plain "s1" "web")) []) ].
 Lemma kindnames_witness2 :
-  let s := (run ksn_log2 st0).1 in ksn s ≠ recompute_ksn s.
-Proof. cbv zeta. eapply bool_decide_eq_false_1. vm_compute. reflexivity. Qed.
+  let s := (run ksn_log2 st0).1 in ("", "db") ∈ ksn s /\ ("", "db") ∉ recompute_ksn s /\ ksn s ≠ recompute_ksn s.
+Proof.
+  cbv zeta. split; [|split].
+  - eapply bool_decide_eq_true_1. vm_compute. reflexivity.
+  - eapply bool_decide_eq_true_1. vm_compute. reflexivity.
+  - eapply bool_decide_eq_false_1. vm_compute. reflexivity.
+Qed.
+
+(* STILL FALSE (2): a service-defaults entry loses its Destination by an update: only the delete path
+   removes the (destination, name) pair *)
+Definition ksn_log3 : list (N * cmd) :=
+  [ (3, ConfSet "ext" (CDefaults true)); (4, ConfSet "ext" (CDefaults false)) ].
+Lemma kindnames_witness3 :
+  let s := (run ksn_log3 st0).1 in ("destination", "ext") ∈ ksn s /\ recompute_ksn s = ∅.
+Proof.
+  cbv zeta. split.
+  - eapply bool_decide_eq_true_1. vm_compute. reflexivity.
+  - eapply bool_decide_eq_true_1. vm_compute. reflexivity.
+Qed.
 
 (* ---- mesh-topology ---- *)
 (* two proxy instances declare the same upstream; the second is deregistered.  Before /repo acb191c
@@ -117,27 +139,84 @@ Proof.
   eapply bool_decide_eq_true_1; vm_compute; reflexivity.
 Qed.
 
-(* ---- gateway-services: a listed service is overwritten by the wildcard of the same entry ---- *)
+(* ---- gateway-services ---- *)
+(* a service listed next to the wildcard of the same entry registers and deregisters.  Before /repo
+   a882280 the listed row became FromWildcard on registration and disappeared on deregistration; now
+   it stays the listed row throughout (regression case, replayed by the harness corpus). *)
 Definition gws_log : list (N * cmd) :=
   [ (3, ConfSet "tgw" (CTermGW ["web"; "*"]));
     (4, Register "n1" "" 1 false (Some (plain "s1" "web")) []);
     (5, Deregister "n1" "s1" "") ].
 
-Lemma gateway_witness :
-  stored_gws (run (take 2 gws_log) st0).1 !! ("tgw", "web", 0) = Some (KTermGW, true) /\
-  recompute_gws (run (take 2 gws_log) st0).1 !! ("tgw", "web", 0) = Some (KTermGW, false) /\
-  (* after the instance is gone the listed association is gone too *)
-  stored_gws (run gws_log st0).1 !! ("tgw", "web", 0) = None /\
-  recompute_gws (run gws_log st0).1 !! ("tgw", "web", 0) = Some (KTermGW, false).
-Proof. split; [|split; [|split]]; vm_compute; reflexivity. Qed.
+Lemma gateway_repaired_example :
+  stored_gws (run (take 2 gws_log) st0).1 = recompute_gws (run (take 2 gws_log) st0).1 /\
+  stored_gws (run (take 2 gws_log) st0).1 !! ("tgw", "web", 0) = Some (KTermGW, false) /\
+  stored_gws (run gws_log st0).1 = recompute_gws (run gws_log st0).1 /\
+  stored_gws (run gws_log st0).1 !! ("tgw", "web", 0) = Some (KTermGW, false).
+Proof. split; [|split; [|split]]; eapply bool_decide_eq_true_1; vm_compute; reflexivity. Qed.
+
+(* two terminating gateways list "ext"; a service-defaults entry with a destination is written.
+   Before /repo 948377c only the first row learnt the new kind; now both do. *)
+Definition gws_rows_log : list (N * cmd) :=
+  [ (3, ConfSet "tgw" (CTermGW ["ext"])); (4, ConfSet "tgw2" (CTermGW ["ext"])); (5, ConfSet "ext" (CDefaults true)) ].
+Lemma gateway_rows_repaired_example :
+  let s := (run gws_rows_log st0).1 in
+  gws s !! ("tgw", "ext", 0) = Some (GS KTermGW false GDestination) /\
+  gws s !! ("tgw2", "ext", 0) = Some (GS KTermGW false GDestination).
+Proof. cbv zeta. split; vm_compute; reflexivity. Qed.
+
+(* STILL FALSE: the table depends on the ORDER of writes when an INGRESS gateway has a wildcard.
+   (1) the same two commands in both orders — a sidecar proxy of "db" (no instance named db) and an
+       ingress entry with "*": the association (igw, db) exists only if the proxy registers AFTER the
+       entry is written (registration path: any connect instance; config path: only names with a
+       typical instance);
+   (2) a service-defaults destination written BEFORE the wildcard ingress entry gets an association
+       (updateGatewayNamespace adds destinations whatever the gateway kind), written after it does
+       not. *)
+Definition igw_conf : cmd := ConfSet "igw" (CIngressGW [(8080, ["*"])]).
+Definition igw_proxy : cmd := Register "n1" "" 1 false (Some (proxy "s1" "db-proxy" "db" [])) [].
+Lemma gateway_order_witness :
+  let a := (run [(3, igw_conf); (4, igw_proxy)] st0).1 in
+  let b := (run [(3, igw_proxy); (4, igw_conf)] st0).1 in
+  stored_gws a !! ("igw", "db", 8080) = Some (KIngressGW, true) /\
+  stored_gws b !! ("igw", "db", 8080) = None /\
+  recompute_gws a = recompute_gws b /\ stored_gws b ≠ recompute_gws b.
+Proof.
+  cbv zeta. split; [vm_compute; reflexivity|]. split; [vm_compute; reflexivity|].
+  split; [eapply bool_decide_eq_true_1; vm_compute; reflexivity|eapply bool_decide_eq_false_1; vm_compute; reflexivity].
+Qed.
+
+Lemma gateway_order_witness2 :
+  let a := (run [(3, ConfSet "ext" (CDefaults true)); (4, igw_conf)] st0).1 in
+  let b := (run [(3, igw_conf); (4, ConfSet "ext" (CDefaults true))] st0).1 in
+  stored_gws a !! ("igw", "ext", 8080) = Some (KIngressGW, true) /\
+  stored_gws b !! ("igw", "ext", 8080) = None /\
+  recompute_gws a = recompute_gws b /\ stored_gws a ≠ recompute_gws a.
+Proof.
+  cbv zeta. split; [vm_compute; reflexivity|]. split; [vm_compute; reflexivity|].
+  split; [eapply bool_decide_eq_true_1; vm_compute; reflexivity|eapply bool_decide_eq_false_1; vm_compute; reflexivity].
+Qed.
+
+(* (3) an instance re-registered under another name leaves the wildcard-derived association of the old
+   name behind (the cleanup runs only in deleteServiceTxn) *)
+Definition gws_redef_log : list (N * cmd) :=
+  [ (3, ConfSet "tgw" (CTermGW ["*"]));
+    (4, Register "n1" "" 1 false (Some (plain "s1" "api")) []);
+    (5, Register "n1" "" 1 false (Some (plain "s1" "web")) []) ].
+Lemma gateway_redef_witness :
+  let s := (run gws_redef_log st0).1 in
+  stored_gws s !! ("tgw", "api", 0) = Some (KTermGW, true) /\ recompute_gws s !! ("tgw", "api", 0) = None.
+Proof. cbv zeta. split; vm_compute; reflexivity. Qed.
 
 (* ---- usage: an instance renamed to "consul" ---- *)
+(* a plain "web" (billable) and a proxy that is then renamed to "consul".  Before /repo 10e7cca the
+   rename decremented the billable count to 0; now it stays 1 (regression case in the corpus). *)
 Definition usage_log : list (N * cmd) :=
   [ (3, Register "n1" "" 1 false (Some (plain "s1" "web")) []);
     (4, Register "n1" "" 1 false (Some (proxy "s2" "p" "web" [])) []);
     (5, Register "n1" "" 1 false (Some (proxy "s2" "consul" "web" [])) []) ].
 
-Lemma usage_witness :
+Lemma usage_repaired_example :
   let s := (run usage_log st0).1 in
-  stored_usage s billable_usage = 0 /\ recompute_usage s billable_usage = 1.
+  stored_usage s billable_usage = 1 /\ recompute_usage s billable_usage = 1.
 Proof. cbv zeta. split; vm_compute; reflexivity. Qed.
